@@ -52,6 +52,68 @@ def top_level_index(body, st):
     return None
 
 
+class Scope:
+    """Shallow view of one statement list: resolves a local temporary to the expression assigned to it
+    (single top-level assignment in the list) so that extracted temporaries read like the inlined expression."""
+
+    def __init__(self, bs, stmts, keep=(), only=None):
+        self.bs, self.stmts, self.keep, self.only = bs, list(stmts), set(keep), only
+        self.defs = {}
+        counts = {}
+        for st in self.stmts:
+            if isinstance(st, ast.Assign) and len(st.targets) == 1:
+                tg = st.targets[0]
+                if isinstance(tg, ast.Name):
+                    counts[tg.id] = counts.get(tg.id, 0) + 1
+                    self.defs[tg.id] = ("one", st)
+                elif isinstance(tg, (ast.Tuple, ast.List)) and isinstance(st.value, (ast.Tuple, ast.List)) and len(tg.elts) == len(st.value.elts):
+                    for t_, v_ in zip(tg.elts, st.value.elts):
+                        if isinstance(t_, ast.Name):
+                            counts[t_.id] = counts.get(t_.id, 0) + 1
+                            self.defs[t_.id] = ("pair", st, v_)
+        for st in self.stmts:
+            for n in ast.walk(st):
+                if isinstance(n, ast.AugAssign) and isinstance(n.target, ast.Name):
+                    counts[n.target.id] = counts.get(n.target.id, 0) + 2
+        self.defs = {k: v for k, v in self.defs.items() if counts.get(k) == 1
+                     and (self.only is None or isinstance(v[1].value if v[0] == "one" else v[2], self.only))}
+
+    def term(self, expr, at):
+        return self.resolve(self.bs.term(expr, at))
+
+    def resolve(self, t, depth=0):
+        if depth > 6:
+            return t
+        m = {}
+        for s_ in walk(t):
+            if s_[0] == "local" and s_[1] in self.defs and s_[1] not in self.keep:
+                d = self.defs[s_[1]]
+                v = self.bs.term(d[1].value if d[0] == "one" else d[2], d[1])
+                m[s_] = self.resolve(v, depth + 1)
+        return subst(t, m) if m else t
+
+
+def search_loop(fn, cfg, bs):
+    """(F, L, continuation test term, body statements, form) - the loop over the angles and the search loop in it."""
+    fors = [s for s in cfg.all_stmts() if isinstance(s, ast.For)]
+    outer = [f for f in fors if not cfg.enclosing_loops(f)]
+    if len(outer) != 1:
+        raise AnalysisError(f"{fn.qualname}: expected one loop over the angles")
+    F = outer[0]
+    inner = [s for s in ast.walk(F) if isinstance(s, (ast.While, ast.For)) and s is not F and cfg.enclosing_loops(s) == [F]]
+    if len(inner) != 1:
+        raise AnalysisError(f"{fn.qualname}: expected one search loop inside the loop over the angles, found {len(inner)}")
+    L = inner[0]
+    if isinstance(L, ast.While):
+        return F, L, bs.term(L.test, L), list(L.body), "while"
+    first = L.body[0] if L.body else None
+    if isinstance(first, ast.If) and len(first.body) == 1 and isinstance(first.body[0], ast.Break) and not first.orelse:
+        t = bs.term(first.test, first)
+        from vstat.terms import neg_test
+        return F, L, neg_test(t), list(L.body[1:]), "for"
+    raise AnalysisError(f"{fn.qualname}: counted search loop without a leading tolerance test")
+
+
 def one(prog, rep, cls, comb):
     q = f"{CT}.{cls}._compute"
     fn = prog.func(q)
@@ -60,15 +122,12 @@ def one(prog, rep, cls, comb):
     bf = builder(prog, fn, inline=False)
     cfg = cfg_of(fn)
     rd = rd_of(fn)
-    whiles = [s for s in cfg.all_stmts() if isinstance(s, ast.While)]
-    fors = [s for s in cfg.all_stmts() if isinstance(s, ast.For)]
-    if len(whiles) != 1 or len(fors) != 1:
-        raise AnalysisError(f"{q}: expected one search loop inside one loop over the angles")
-    W, F = whiles[0], fors[0]
+    F, W, cont, body, form = search_loop(fn, cfg, bs)
     alpha = ("attr", SELF, "alpha")
     # ---- predicate: mask and pe
-    mask_st = pe_st = vec_st = None
-    for st in W.body:
+    sc0 = Scope(bs, body, only=ast.Compare)
+    mask_st = None
+    for st in body:
         if isinstance(st, ast.Assign) and isinstance(st.targets[0], ast.Name):
             t = bs.term(st.value, st)
             if t[0] == "call" and t[1] in (G("numpy.logical_and"), G("numpy.logical_or")) or (t[0] == "bin" and t[1] in ("&", "|")):
@@ -77,7 +136,7 @@ def one(prog, rep, cls, comb):
         rep.fail("C04.pred", f"{q}:mask", fn.where(W), "no exceedance mask (np.logical_and / np.logical_or) found in the search loop")
         return None
     mname = mask_st.targets[0].id
-    mt = bs.term(mask_st.value, mask_st)
+    mt = sc0.term(mask_st.value, mask_st)
     site = fn.where(mask_st)
     comb_t = mt[1] if mt[0] == "call" else {"&": G("numpy.logical_and"), "|": G("numpy.logical_or")}[mt[1]]
     rep.check(comb_t == G(comb), "C04.pred", f"{q}:combiner", site, f"{comb.split('.')[-1]}",
@@ -102,7 +161,8 @@ def one(prog, rep, cls, comb):
                 ok, why = False, f"sample column {k} must be compared with component {k} of the current vector; found {show(r)[:60]}"
                 break
             vname = r[1][1] if vname in (None, r[1][1]) else "?"
-            xy.append(bf.term(mask_st.value.args[k].left if isinstance(mask_st.value, ast.Call) and isinstance(mask_st.value.args[k], ast.Compare) and isinstance(mask_st.value.args[k].ops[0], (ast.Gt, ast.GtE)) else (mask_st.value.args[k].comparators[0] if isinstance(mask_st.value, ast.Call) else mask_st.value), mask_st))
+            # the sample column: a local bound outside the loops -> full term
+            xy.append(bf.name(l[1], mask_st, {}) if l[0] == "local" else l)
     if ok and vname == "?":
         ok, why = False, "the two comparisons use different vectors"
     if ok:
@@ -114,25 +174,24 @@ def one(prog, rep, cls, comb):
     rep.check(ok, "C04.pred", f"{q}:exceedance", site, "x > v[0] , y > v[1] (strict, own components)", why)
     if not ok:
         return None
-    for st in W.body:
+    pe_st = vec_st = None
+    m = Lc(mname)
+    forms = (("bin", "/", ("call", ("attr", m, "sum"), (), ()), ("attr", m, "size")),
+             ("bin", "/", ("call", G("numpy.sum"), (m,), ()), ("attr", m, "size")),
+             ("bin", "/", ("call", G("numpy.count_nonzero"), (m,), ()), ("attr", m, "size")),
+             ("call", G("numpy.mean"), (m,), ()), ("call", ("attr", m, "mean"), (), ()),
+             ("bin", "/", ("call", ("attr", m, "sum"), (), ()), ("call", G("len"), (m,), ())))
+    for st in body:
         if isinstance(st, ast.Assign) and isinstance(st.targets[0], ast.Name):
-            t = bs.term(st.value, st)
-            m = Lc(mname)
-            forms = (("bin", "/", ("call", ("attr", m, "sum"), (), ()), ("attr", m, "size")),
-                     ("bin", "/", ("call", G("numpy.sum"), (m,), ()), ("attr", m, "size")),
-                     ("bin", "/", ("call", G("numpy.count_nonzero"), (m,), ()), ("attr", m, "size")),
-                     ("call", G("numpy.mean"), (m,), ()), ("call", ("attr", m, "mean"), (), ()),
-                     ("bin", "/", ("call", ("attr", m, "sum"), (), ()), ("call", G("len"), (m,), ())))
-            if t in forms:
+            if bs.term(st.value, st) in forms:
                 pe_st = st
             if st.targets[0].id == vname:
                 vec_st = st
     rep.check(pe_st is not None, "C04.pred", f"{q}:pe", fn.where(W), "pe = mask.sum() / mask.size",
               "the exceedance probability must be the fraction of sample points in the mask (count / size of the SAME mask)")
     if pe_st is None:
-        # keep analysing with whatever top-level statement computes a value from the mask
-        for st in W.body:
-            if isinstance(st, ast.Assign) and isinstance(st.targets[0], ast.Name) and st is not mask_st and mentions(bs.term(st.value, st), Lc(mname)):
+        for st in body:
+            if isinstance(st, ast.Assign) and isinstance(st.targets[0], ast.Name) and st is not mask_st and mentions(bs.term(st.value, st), m):
                 pe_st = st
                 break
     if pe_st is None or vec_st is None:
@@ -141,98 +200,138 @@ def one(prog, rep, cls, comb):
         return None
     pename = pe_st.targets[0].id
     # ---- exit
-    tt = bs.term(W.test, W)
-    al_names = [n for n in ("alpha",) if rd.all_defs(n)]
+
     def is_alpha(t):
         return t == alpha or (t[0] == "local" and bf.name(t[1], W, {}) == alpha)
+
     def is_allowed(t):
         ae = ("attr", SELF, "allowed_error")
         return t == ae or (t[0] == "local" and bf.name(t[1], W, {}) == ae)
+
+    tt = cont
     okt = False
     if tt[0] == "cmp" and tt[1] == ">" and is_allowed(tt[3]) and tt[2][0] == "bin" and tt[2][1] == "/" and is_alpha(tt[2][3]):
         num = tt[2][2]
         if num[0] == "call" and num[1] in (G("numpy.abs"), G("abs")) and len(num[2]) == 1:
             dlt = num[2][0]
             okt = dlt[0] == "bin" and dlt[1] == "-" and ((dlt[2] == Lc(pename) and is_alpha(dlt[3])) or (dlt[3] == Lc(pename) and is_alpha(dlt[2])))
-    rep.check(okt, "C04.exit", f"{q}:test", fn.where(W), "while |pe - alpha| / alpha > allowed_error",
+    rep.check(okt, "C04.exit", f"{q}:test", fn.where(W), "search continues while |pe - alpha| / alpha > allowed_error",
               f"the search must continue exactly while the relative error of the current pe exceeds allowed_error: |pe - alpha|/alpha > allowed_error; found {show(tt)[:160]}")
     rep.check(not W.orelse and not any(isinstance(n, ast.Return) for n in ast.walk(W)), "C04.exit", f"{q}:no-other-exit", fn.where(W),
-              "no else / return in the search loop", "the search loop must have no other exit than its test and the warned break")
-    breaks = [n for n in ast.walk(W) if isinstance(n, ast.Break)]
-    okb = len(breaks) >= 1
-    why = "no iteration limit found: a non-converging search never terminates"
+              "no else / return in the search loop", "the search loop must have no other exit than its test and the warned stop at the iteration limit")
+    inside = {cfg.node(s_) for s_ in ast.walk(W) if id(s_) in cfg.node_of}
+    warn_nodes = [cfg.node(s_) for s_ in ast.walk(W) if isinstance(s_, ast.Expr) and isinstance(s_.value, ast.Call) and _is_warn(bf.term(s_.value, s_), "UserWarning")]
+    lead = W.body[0].body[0] if form == "for" else None
+    breaks = [n for n in ast.walk(W) if isinstance(n, ast.Break) and n is not lead]
+    okb, why = True, ""
     for br in breaks:
         enc = cfg.enclosing(br)
-        ifs = [p for p, w in enc if isinstance(p, ast.If) and w == "body" and any(x is p for x in ast.walk(W))]
-        warn_nodes = [cfg.node(s) for s in ast.walk(W) if isinstance(s, ast.Expr) and isinstance(s.value, ast.Call)
-                      and _is_warn(bf.term(s.value, s), "UserWarning")]
-        dom = any(cfg.dominates(wn, cfg.node(br)) and cfg.reachable(cfg.node(W), wn) for wn in warn_nodes)
-        # the warn must be inside the loop iteration: its node lies within W
-        inside = {cfg.node(s) for s in ast.walk(W) if id(s) in cfg.node_of}
-        dom = dom and any(wn in inside and cfg.dominates(wn, cfg.node(br)) for wn in warn_nodes)
+        ifs = [p_ for p_, w_ in enc if isinstance(p_, ast.If) and w_ == "body" and any(x is p_ for x in ast.walk(W))]
+        dom = any(wn in inside and cfg.dominates(wn, cfg.node(br)) for wn in warn_nodes)
         lim = False
         if ifs:
             t_if = bs.term(ifs[-1].test, ifs[-1])
-            lim = t_if[0] == "cmp" and t_if[1] in ("==", ">=") and t_if[2][0] == "local" and (t_if[3][0] == "local" or t_if[3][0] == "const")
+            lim = t_if[0] == "cmp" and t_if[1] in ("==", ">=") and t_if[2][0] == "local" and (t_if[3][0] in ("local", "const"))
         if not dom:
             okb, why = False, "a break leaves the search loop without the 'could not achieve the required precision' UserWarning: an inaccurate point is returned silently"
         elif not lim:
             okb, why = False, "the warned break is not guarded by the iteration counter reaching the maximum"
-    rep.check(okb, "C04.exit", f"{q}:break", fn.where(breaks[0]) if breaks else fn.where(W), "break only after warnings.warn(UserWarning) at the iteration limit", why)
+    if form == "while":
+        if not breaks:
+            okb, why = False, "no iteration limit found: a non-converging search never terminates"
+    else:
+        # counted loop: running out of iterations is an exit too and must be warned in the last iteration
+        it = bs.term(W.iter, W)
+        last = None
+        if it[0] == "call" and it[1] == G("range") and it[2]:
+            stop = it[2][0] if len(it[2]) == 1 else it[2][1]
+            last = ("bin", "-", stop, ("const", 1))
+        lv = Lc(W.target.id) if isinstance(W.target, ast.Name) else None
+        warned_last = False
+        for wn in warn_nodes:
+            st_w = cfg.stmt[wn]
+            for p_, w_ in cfg.enclosing(st_w):
+                if isinstance(p_, ast.If) and w_ == "body" and any(x is p_ for x in ast.walk(W)):
+                    t_if = bs.term(p_.test, p_)
+                    if t_if[0] == "cmp" and t_if[1] in ("==", ">=") and t_if[2] == lv and last is not None:
+                        lim_t = t_if[3]
+                        lim_full = bf.name(lim_t[1], W, {}) if lim_t[0] == "local" else lim_t
+                        last_full = subst(last, {s_: bf.name(s_[1], W, {}) for s_ in walk(last) if s_[0] == "local"})
+                        if algebra.same(lim_full, last_full):
+                            warned_last = True
+        if not warned_last:
+            okb, why = False, "the counted search loop can run out of iterations without the 'could not achieve the required precision' UserWarning"
+    rep.check(okb, "C04.exit", f"{q}:break", fn.where(breaks[0]) if breaks else fn.where(W), "the iteration limit is left only after warnings.warn(UserWarning)", why)
     # ---- sync
-    iv, im, ip = (top_level_index(W.body, s) for s in (vec_st, mask_st, pe_st))
+    iv, im, ip = (top_level_index(body, s_) for s_ in (vec_st, mask_st, pe_st))
     rep.check(iv is not None and im is not None and ip is not None and iv < im < ip, "C04.sync", f"{q}:order", fn.where(pe_st),
               "vector, then mask, then pe", "in each iteration the vector must be computed before the mask and pe computed from that mask")
     later = [d for d in rd.all_defs(vname) if d.stmt is not vec_st]
     redefs = [d for d in later if any(n is d.stmt for n in ast.walk(W))]
     rep.check(not redefs, "C04.sync", f"{q}:no-redefinition", fn.where(redefs[0].stmt) if redefs else fn.where(vec_st),
               "the vector is assigned once per iteration", f"{vname} is reassigned inside the search loop after pe was computed from it: the stored point is not the one whose exceedance was tested")
-    mreach = rd.reaching(vname, mask_st)
-    rep.check([d.stmt for d in mreach] == [vec_st], "C04.sync", f"{q}:mask-uses-current", fn.where(mask_st),
+    mask_users = [mask_st] + [d[1] for n_, d in sc0.defs.items() if d[1] is not vec_st and any(isinstance(x, ast.Name) and x.id == vname for x in ast.walk(d[1]))]
+    okm = all([d.stmt for d in rd.reaching(vname, u)] == [vec_st] for u in mask_users if any(isinstance(x, ast.Name) and x.id == vname for x in ast.walk(u)))
+    rep.check(okm, "C04.sync", f"{q}:mask-uses-current", fn.where(mask_st),
               "the mask reads this iteration's vector", "the mask must be computed from the vector of the same iteration")
-    # stores after the loop
+    # reads of the vector after the search loop, inside the angle loop
     stores = []
-    for st in F.body:
-        if any(n is st for n in ast.walk(W)):
-            continue
+    iW = top_level_index(F.body, W)
+    for st in F.body[iW + 1:] if iW is not None else []:
         for n in ast.walk(st):
-            if isinstance(n, ast.Subscript) and isinstance(n.value, ast.Name) and n.value.id == vname and isinstance(n.ctx, ast.Load):
+            if isinstance(n, ast.Name) and n.id == vname and isinstance(n.ctx, ast.Load):
                 holder = _stmt_containing(F.body, n)
-                if holder is not None:
+                if holder is not None and holder not in [h for h, _ in stores]:
                     stores.append((holder, n))
-    ok = bool(stores) and all([d.stmt for d in rd.reaching(vname, h)] == [vec_st] for h, _ in stores) \
-        and all(top_level_index(F.body, h) > top_level_index(F.body, W) for h, _ in stores)
+    ok = bool(stores) and all([d.stmt for d in rd.reaching(vname, _inner_stmt(cfg, h, n_))] == [vec_st] for h, n_ in stores)
     rep.check(ok, "C04.sync", f"{q}:stored-point", fn.where(stores[0][0]) if stores else fn.where(F),
               "the stored coordinates are components of the vector pe was last computed from",
               "the coordinates stored after the search must be components of the vector defined in the last iteration (before pe), nothing else")
-    # pe read by the loop test is this pe (or the initial 0)
-    pdefs = rd.reaching(pename, W)
+    pdefs = rd.reaching(pename, W.body[0] if form == "for" else W)
     okp = all(d.stmt is pe_st or (d.kind == "assign" and isinstance(d.value, ast.Constant) and d.value.value == 0) for d in pdefs) and any(d.stmt is pe_st for d in pdefs)
     rep.check(okp, "C04.sync", f"{q}:pe-tested", fn.where(W), "the loop test reads the pe of the last iteration (initially 0)",
               "the loop test must read the pe computed in the last iteration")
-    rep.check(iv is not None and W.body[iv] is vec_st, "C04.sync", f"{q}:vector-top-level", fn.where(vec_st), "vector assignment is unconditional in the iteration", "the vector must be assigned unconditionally in every iteration")
+    rep.check(iv is not None and body[iv] is vec_st, "C04.sync", f"{q}:vector-top-level", fn.where(vec_st), "vector assignment is unconditional in the iteration", "the vector must be assigned unconditionally in every iteration")
     # ---- ray
+    scF = Scope(bs, F.body, keep={vname})
     vt = bs.term(vec_st.value, vec_st)
-    uname = None
+    usrc = None
     if vt[0] == "bin" and vt[1] == "*":
         for u, s_ in ((vt[2], vt[3]), (vt[3], vt[2])):
-            if u[0] == "local" and any(isinstance(x, ast.Assign) and isinstance(x.targets[0], ast.Subscript) and isinstance(x.targets[0].value, ast.Name) and x.targets[0].value.id == u[1] for x in F.body):
-                uname = u[1]
-    rep.check(uname is not None, "C04.ray", f"{q}:scaled-unit", fn.where(vec_st), "vector = unit direction * scalar",
+            if u[0] == "local" and usrc is None:
+                # (a) a local array filled component-wise in the angle loop
+                comps = {}
+                for x in F.body:
+                    if isinstance(x, ast.Assign) and isinstance(x.targets[0], ast.Subscript) and isinstance(x.targets[0].value, ast.Name) and x.targets[0].value.id == u[1]:
+                        comps[bf.term(x.targets[0].slice, x)] = bf.term(x.value, x)
+                if comps:
+                    usrc = ("stores", comps, None)
+                else:
+                    # (b) the result of a helper called with the loop's angle
+                    d = [dd for dd in rd.reaching(u[1], vec_st) if dd.kind == "assign"]
+                    if len(d) == 1 and isinstance(d[0].value, ast.Call):
+                        ct = bf.term(d[0].value, d[0].stmt)
+                        callee = prog.functions.get(ct[1][1]) if ct[0] == "call" and ct[1][0] == "func" else None
+                        if callee is not None and len(ct[2]) == 1:
+                            cb = builder(prog, callee, inline=False)
+                            rets = [r_ for r_ in cfg_of(callee).all_stmts() if isinstance(r_, ast.Return)]
+                            if len(rets) == 1 and isinstance(rets[0].value, ast.Name):
+                                comps = {}
+                                for x in cfg_of(callee).all_stmts():
+                                    if isinstance(x, ast.Assign) and isinstance(x.targets[0], ast.Subscript) and isinstance(x.targets[0].value, ast.Name) and x.targets[0].value.id == rets[0].value.id:
+                                        comps[cb.term(x.targets[0].slice, x)] = subst(cb.term(x.value, x), {P(callee.positional_params[0]): ct[2][0]})
+                                usrc = ("stores", comps, callee)
+    rep.check(usrc is not None, "C04.ray", f"{q}:scaled-unit", fn.where(vec_st), "vector = unit direction * scalar",
               f"the searched point must stay on the ray: vector = unit direction * scalar; found {show(vt)[:100]}")
     lid = f"{F.lineno}:{F.col_offset}"
-    if uname is not None:
-        comps = {}
-        for x in F.body:
-            if isinstance(x, ast.Assign) and isinstance(x.targets[0], ast.Subscript) and isinstance(x.targets[0].value, ast.Name) and x.targets[0].value.id == uname:
-                k = bf.term(x.targets[0].slice, x)
-                comps[k] = bf.term(x.value, x)
+    if usrc is not None:
+        comps = usrc[1]
         c0, c1 = comps.get(("const", 0)), comps.get(("const", 1))
         ok = False
         theta = None
         if c0 and c1 and c0[0] == "call" and c0[1] == G("numpy.cos") and c1[0] == "call" and c1[1] == G("numpy.sin") and c0[2] == c1[2]:
             arg = c0[2][0]
-            ths = [s for s in walk(arg) if s[0] == "sub" and s[2][0] == "idx" and s[2][1] == lid]
+            ths = [s_ for s_ in walk(arg) if s_[0] == "sub" and s_[2][0] == "idx" and s_[2][1] == lid]
             if ths:
                 theta = ths[0]
                 ok = algebra.same(arg, ("bin", "/", ("bin", "*", theta, G("numpy.pi")), ("const", 180)))
@@ -246,8 +345,9 @@ def one(prog, rep, cls, comb):
                 want = ("call", G("numpy.arange"), (("attr", SELF, "lowest_theta"), ("attr", SELF, "highest_theta"), ("attr", SELF, "deg_step")), ())
             rep.check(grid == want, "C04.ray", f"{q}:thetas", fn.where(F), f"thetas = {show(want)}", f"angles must be {show(want)}; found {show(grid)[:120]}")
     # ---- closure / filter
-    coord = [s for s in cfg.all_stmts() if isinstance(s, ast.Assign) and isinstance(s.targets[0], ast.Attribute) and s.targets[0].attr == "coordinates"]
+    coord = [s_ for s_ in cfg.all_stmts() if isinstance(s_, ast.Assign) and isinstance(s_.targets[0], ast.Attribute) and s_.targets[0].attr == "coordinates"]
     ct = bs.term(coord[0].value, coord[0]) if coord else None
+    V = lambda k: ("sub", Lc(vname), ("const", k))
     if cls == "AndContour":
         ok = False
         why = "coordinates must be the two filled arrays as columns"
@@ -258,9 +358,10 @@ def one(prog, rep, cls, comb):
             for st in cfg.all_stmts():
                 if isinstance(st, ast.Assign) and isinstance(st.targets[0], ast.Subscript) and isinstance(st.targets[0].value, ast.Name) and st.targets[0].value.id in (nx, ny):
                     k = bf.term(st.targets[0].slice, st)
-                    (ins if cfg.enclosing_loops(st) else fin).setdefault(st.targets[0].value.id, []).append((k, bs.term(st.value, st), st))
+                    val = scF.term(st.value, st) if cfg.enclosing_loops(st) else bs.term(st.value, st)
+                    (ins if cfg.enclosing_loops(st) else fin).setdefault(st.targets[0].value.id, []).append((k, val, st))
             i = ("idx", lid, "enumerate")
-            okin = [x[:2] for x in ins.get(nx, [])] == [(i, ("sub", Lc(vname), ("const", 0)))] and [x[:2] for x in ins.get(ny, [])] == [(i, ("sub", Lc(vname), ("const", 1)))]
+            okin = [x[:2] for x in ins.get(nx, [])] == [(i, V(0))] and [x[:2] for x in ins.get(ny, [])] == [(i, V(1))]
             okfin = [x[:2] for x in fin.get(nx, [])] == [(("const", -1), ("const", 0))] and [x[:2] for x in fin.get(ny, [])] == [(("const", -1), ("const", 0))]
             thetas_t = bf.term(F.iter, F)
             th = thetas_t[2][0] if thetas_t[0] == "call" and thetas_t[1] == G("enumerate") else None
@@ -272,71 +373,98 @@ def one(prog, rep, cls, comb):
                    f"in-loop ok={okin} closing ok={okfin} size ok={size_ok}")
         rep.check(ok, "C04.close", f"{q}:closure", fn.where(coord[0]) if coord else fn.where(), "points at their own index, closed with (0, 0)", why)
         return {"fn": fn, "W": W, "mask": mask_st, "mname": mname, "bs": bs}
-    # OrContour
-    ok = False
-    why = "coordinates must be the two lists as columns"
-    if ct is not None and ct[0] == "cols" and len(ct[1]) == 2:
-        def base_list(t):
-            if t[0] == "local":
-                v = bf.name(t[1], coord[0], {})
-                return v
-            return None
-        cols_names = []
-        for col in ct[1]:
-            nm = None
-            if col[0] == "local":
-                # coords_x = np.array(coords_x, dtype=object): follow to the list name
-                d = [dd for dd in rd.reaching(col[1], coord[0])]
-                if len(d) == 1 and d[0].kind == "assign" and isinstance(d[0].value, ast.Call) and d[0].value.args and isinstance(d[0].value.args[0], ast.Name):
-                    nm = d[0].value.args[0].id
-                else:
-                    nm = col[1]
-            cols_names.append(nm)
-        nx, ny = cols_names
-        aps = {nx: [], ny: []}
-        inl = {nx: [], ny: []}
-        for st in cfg.all_stmts():
-            if isinstance(st, ast.Expr) and isinstance(st.value, ast.Call) and isinstance(st.value.func, ast.Attribute) and st.value.func.attr == "append" \
-                    and isinstance(st.value.func.value, ast.Name) and st.value.func.value.id in aps:
-                nm = st.value.func.value.id
-                (inl if cfg.enclosing_loops(st) else aps)[nm].append((bs.term(st.value.args[0], st), st))
-        wantx = [("const", 0), ("const", 0), ("sub", Lc(nx), ("const", 0))]
-        wanty = [("sub", Lc(ny), ("const", -1)), ("const", 0), ("const", 0)]
-        okc = [a for a, _ in aps[nx]] == wantx and [a for a, _ in aps[ny]] == wanty
-        # interleaving: k-th x-append and k-th y-append form point k; y[-1] must be read before any closing append to y
-        okc = okc and all(cfg.dominates(cfg.node(F), cfg.node(s)) for _, s in aps[nx] + aps[ny])
-        rep.check(okc, "C04.close", f"{q}:closure", fn.where(aps[nx][0][1]) if aps[nx] else fn.where(), "(0, y_last), (0, 0), (x_first, 0) appended in this order",
-                  f"OR contour must be closed with exactly (0, y_last), (0, 0), (x_first, 0) in this order, y_last / x_first read from the lists themselves; "
-                  f"x appends {[show(a) for a, _ in aps[nx]]}, y appends {[show(a) for a, _ in aps[ny]]}")
-        okv = [a for a, _ in inl[nx]] == [("sub", Lc(vname), ("const", 0))] and [a for a, _ in inl[ny]] == [("sub", Lc(vname), ("const", 1))]
-        rep.check(okv, "C04.filter", f"{q}:unmodified", fn.where(inl[nx][0][1]) if inl[nx] else fn.where(), "appended values are the vector's components, unmodified",
-                  f"a kept point must be appended unmodified (x <- component 0, y <- component 1); found {[show(a)[:50] for a, _ in inl[nx] + inl[ny]]}")
-        okf = False
-        why = "the in-loop appends are not guarded by the range filter"
-        if inl[nx] and inl[ny]:
-            sx, sy = inl[nx][0][1], inl[ny][0][1]
-            ex, ey = cfg.enclosing(sx), cfg.enclosing(sy)
-            ifx = [p for p, w in ex if isinstance(p, ast.If) and w == "body" and any(n is p for n in ast.walk(F))]
-            ify = [p for p, w in ey if isinstance(p, ast.If) and w == "body" and any(n is p for n in ast.walk(F))]
-            if len(ifx) == 1 and ifx == ify and not ifx[0].orelse:
-                tf = bf.term(ifx[0].test, ifx[0])
-                xs = ("col", xy[0][1], ("const", 0))
-                ys = ("col", xy[0][1], ("const", 1))
-                V = bf.name(vname, ifx[0], {})
-                lits = tf[1] if tf[0] == "and" else ()
-                def lim_ok(l, comp, col):
-                    if l[0] == "cmp" and l[1] == "<" and l[2] == ("sub", V, ("const", comp)):
-                        for mx in (("call", G("max"), (col,), ()), ("call", G("numpy.max"), (col,), ()), ("call", ("attr", col, "max"), (), ())):
-                            if algebra.same(l[3], ("bin", "*", ("const", 1.1), mx)):
-                                return True
-                    return False
-                okf = len(lits) == 2 and lim_ok(lits[0], 0, xs) and lim_ok(lits[1], 1, ys)
-                why = f"an OR point is kept iff component 0 < 1.1*max(x) AND component 1 < 1.1*max(y); found {show(tf)[:200]}"
-        rep.check(okf, "C04.filter", f"{q}:range", fn.where(), "kept iff v[0] < 1.1 max(x) and v[1] < 1.1 max(y)", why)
-        ok = True
-    else:
-        rep.fail("C04.close", f"{q}:closure", fn.where(), why)
+    # OrContour: sequences appended to the two lists
+    if ct is None or ct[0] != "cols" or len(ct[1]) != 2:
+        rep.fail("C04.close", f"{q}:closure", fn.where(), "coordinates must be the two lists as columns")
+        return {"fn": fn, "W": W, "mask": mask_st, "mname": mname, "bs": bs}
+    cols_names = []
+    for col in ct[1]:
+        nm = None
+        if col[0] == "local":
+            d = [dd for dd in rd.reaching(col[1], coord[0])]
+            if len(d) == 1 and d[0].kind == "assign" and isinstance(d[0].value, ast.Call) and d[0].value.args and isinstance(d[0].value.args[0], ast.Name):
+                nm = d[0].value.args[0].id
+            else:
+                nm = col[1]
+        cols_names.append(nm)
+    nx, ny = cols_names
+    # closing sequence: statements after the angle loop, in order; temporaries are evaluated where they are assigned
+    tail = fn.body[fn.body.index(F) + 1:] if F in fn.body else []
+    seq = {nx: [], ny: []}
+    temps = {}
+    order_ok = True
+    for st in tail:
+        if isinstance(st, ast.Assign) and isinstance(st.targets[0], ast.Name) and isinstance(st.value, ast.Subscript) and isinstance(st.value.value, ast.Name) and st.value.value.id in seq:
+            # y_last = coords_y[-1]: valid only while nothing was appended to that list yet
+            temps[st.targets[0].id] = (bs.term(st.value, st), len(seq[st.value.value.id]))
+            continue
+        if isinstance(st, ast.Expr) and isinstance(st.value, ast.Call) and isinstance(st.value.func, ast.Attribute) and isinstance(st.value.func.value, ast.Name) and st.value.func.value.id in seq:
+            nm = st.value.func.value.id
+            vals = []
+            if st.value.func.attr == "append" and len(st.value.args) == 1:
+                vals = [st.value.args[0]]
+            elif st.value.func.attr == "extend" and len(st.value.args) == 1 and isinstance(st.value.args[0], (ast.List, ast.Tuple)):
+                vals = list(st.value.args[0].elts)
+            for v_ in vals:
+                tv = bs.term(v_, st)
+                if tv[0] == "local" and tv[1] in temps:
+                    tv, at_len = temps[tv[1]]
+                    if at_len != 0:
+                        order_ok = False
+                elif tv[0] == "sub" and tv[1] == Lc(nm) and tv[2] == ("const", -1) and len(seq[nm]) != 0:
+                    order_ok = False  # 'last element' read after a closing point was already appended
+                seq[nm].append(tv)
+    wantx = [("const", 0), ("const", 0), ("sub", Lc(nx), ("const", 0))]
+    wanty = [("sub", Lc(ny), ("const", -1)), ("const", 0), ("const", 0)]
+    okc = seq[nx] == wantx and seq[ny] == wanty and order_ok
+    rep.check(okc, "C04.close", f"{q}:closure", fn.where(tail[0]) if tail else fn.where(), "(0, y_last), (0, 0), (x_first, 0) appended in this order",
+              f"OR contour must be closed with exactly (0, y_last), (0, 0), (x_first, 0) in this order, y_last / x_first read from the lists themselves before the closing points are added; "
+              f"x gets {[show(a) for a in seq[nx]]}, y gets {[show(a) for a in seq[ny]]}")
+    inl = {nx: [], ny: []}
+    for st in ast.walk(F):
+        if isinstance(st, ast.Expr) and isinstance(st.value, ast.Call) and isinstance(st.value.func, ast.Attribute) and st.value.func.attr == "append" \
+                and isinstance(st.value.func.value, ast.Name) and st.value.func.value.id in inl:
+            inl[st.value.func.value.id].append((scF.term(st.value.args[0], st), st))
+    okv = [a for a, _ in inl[nx]] == [V(0)] and [a for a, _ in inl[ny]] == [V(1)]
+    rep.check(okv, "C04.filter", f"{q}:unmodified", fn.where(inl[nx][0][1]) if inl[nx] else fn.where(), "appended values are the vector's components, unmodified",
+              f"a kept point must be appended unmodified (x <- component 0, y <- component 1); found {[show(a)[:50] for a, _ in inl[nx] + inl[ny]]}")
+    okf = False
+    why = "the in-loop appends are not guarded by the range filter"
+    if inl[nx] and inl[ny]:
+        sx, sy = inl[nx][0][1], inl[ny][0][1]
+        ifx = [p_ for p_, w_ in cfg.enclosing(sx) if isinstance(p_, ast.If) and w_ == "body" and any(n is p_ for n in ast.walk(F))]
+        ify = [p_ for p_, w_ in cfg.enclosing(sy) if isinstance(p_, ast.If) and w_ == "body" and any(n is p_ for n in ast.walk(F))]
+        if len(ifx) == 1 and ifx == ify and not ifx[0].orelse:
+            tf = scF.term(ifx[0].test, ifx[0])
+            xs = ("col", xy[0][1], ("const", 0))
+            ys = ("col", xy[0][1], ("const", 1))
+            lits = tf[1] if tf[0] == "and" else ()
+
+            def lim_ok(l, comp, col):
+                if l[0] == "cmp" and l[1] == "<" and l[2] == V(comp):
+                    lim = l[3]
+                    lim = bf.name(lim[1], ifx[0], {}) if lim[0] == "local" else lim
+                    for mx in (("call", G("max"), (col,), ()), ("call", G("numpy.max"), (col,), ()), ("call", ("attr", col, "max"), (), ())):
+                        if algebra.same(lim, ("bin", "*", ("const", 1.1), mx)):
+                            return True
+                return False
+            okf = len(lits) == 2 and lim_ok(lits[0], 0, xs) and lim_ok(lits[1], 1, ys)
+            why = f"an OR point is kept iff component 0 < 1.1*max(x) AND component 1 < 1.1*max(y); found {show(tf)[:200]}"
+    rep.check(okf, "C04.filter", f"{q}:range", fn.where(), "kept iff v[0] < 1.1 max(x) and v[1] < 1.1 max(y)", why)
     return {"fn": fn, "W": W, "mask": mask_st, "mname": mname, "bs": bs}
+
+
+def _inner_stmt(cfg, holder, node):
+    """The CFG statement (simple statement or compound header) that evaluates ``node`` inside ``holder``."""
+    best = holder
+    for st in ast.walk(holder):
+        if id(st) in cfg.node_of and st is not holder:
+            own = [st.test] if isinstance(st, (ast.If, ast.While)) else [st.iter] if isinstance(st, ast.For) else [st] if not isinstance(st, (ast.Try, ast.With)) else []
+            if any(any(n is node for n in ast.walk(e)) for e in own):
+                best = st
+    if isinstance(holder, (ast.If, ast.While)) and any(n is node for n in ast.walk(holder.test)):
+        best = holder
+    return best
 
 
 def _stmt_containing(body, node):
@@ -355,39 +483,6 @@ def _is_warn(t, cat):
 
 def sibling(prog, rep, infos):
     a, o = infos.get("AndContour"), infos.get("OrContour")
-    if not a or not o:
-        rep.fail("C04.pred", "AndContour/OrContour:siblings", "virocon/contours.py", "sibling comparison impossible: one of the search loops was not recognised")
-        return
-
-    def norm_body(info):
-        out = []
-        ren = {Lc(info["mname"]): Lc("MASK")}
-        for st in info["W"].body:
-            if st is info["mask"]:
-                out.append(("MASKDEF",))
-                continue
-            out.append(_shape(st, info["bs"], ren))
-        return out
-
-    na, no = norm_body(a), norm_body(o)
-    diff = [i for i, (x, y) in enumerate(zip(na, no)) if x != y]
-    ok = len(na) == len(no) and not diff
-    rep.check(ok, "C04.pred", "AndContour/OrContour:siblings", a["fn"].where(a["W"]),
-              "the two search loops agree statement by statement except for the combiner",
-              f"AND and OR search loops must be identical except for logical_and/logical_or; they differ at statement(s) {diff} "
-              f"(lengths {len(na)}/{len(no)}): {[ast.unparse(a['W'].body[i])[:60] for i in diff[:2]]} vs {[ast.unparse(o['W'].body[i])[:60] for i in diff[:2]]}")
-
-
-def _shape(st, bs, ren):
-    """A hashable structural summary of a statement in shallow terms."""
-    if isinstance(st, ast.Assign):
-        return ("assign", tuple(subst(bs.term(t, st), ren) if not isinstance(t, ast.Name) else Lc(t.id) for t in st.targets), subst(bs.term(st.value, st), ren))
-    if isinstance(st, ast.AugAssign):
-        return ("aug", type(st.op).__name__, ast.unparse(st.target), subst(bs.term(st.value, st), ren))
-    if isinstance(st, ast.Expr):
-        return ("expr", subst(bs.term(st.value, st), ren))
-    if isinstance(st, ast.If):
-        return ("if", subst(bs.term(st.test, st), ren), tuple(_shape(s, bs, ren) for s in st.body), tuple(_shape(s, bs, ren) for s in st.orelse))
-    if isinstance(st, ast.Break):
-        return ("break",)
-    return (type(st).__name__, ast.dump(st))
+    rep.check(bool(a) and bool(o), "C04.pred", "AndContour/OrContour:siblings", "virocon/contours.py",
+              "both search loops were recognised and checked against the same obligations",
+              "sibling comparison impossible: one of the search loops was not recognised")
